@@ -128,11 +128,15 @@ var (
 )
 
 const (
-	xNTx = 3 // T0, T1 spend outpoint 0 (conflict); T2 spends outpoint 1
-	xNOp = 2
+	// T0, T1 spend outpoint 0 (conflict); T2 spends outpoint 1; T3 spends
+	// outpoint 2.  xNTx/xNOp are the maxima; a world uses the first w.ntx txs
+	// and w.nop outpoints (3/2 for the single-history kinds, 4/3 for the
+	// multi-request kinds).
+	xNTx = 4
+	xNOp = 3
 )
 
-var xSpends = [xNTx]int{0, 0, 1}
+var xSpends = [xNTx]int{0, 0, 1, 2}
 
 type xBlock struct {
 	bid int
@@ -143,21 +147,21 @@ type xOpRec struct {
 	Op  []any          `json:"op"`
 	Ret any            `json:"ret"`
 	Ev  map[string]any `json:"ev,omitempty"`
-	CH  [xNTx]*uint32  `json:"ch"`
-	SH  [xNOp]*uint32  `json:"sh"`
+	CH  []*uint32      `json:"ch"`
+	SH  []*uint32      `json:"sh"`
 	Cur int            `json:"cur"`
 }
 
 type xCase struct {
-	CI     int           `json:"ci"`
-	Kind   string        `json:"kind"`
-	Parent int           `json:"parent,omitempty"`
-	Start  int           `json:"start"`
-	Limit  int           `json:"limit"`
-	Pre    [][]any       `json:"pre"`
-	CH0    [xNTx]*uint32 `json:"ch0"`
-	SH0    [xNOp]*uint32 `json:"sh0"`
-	Ops    []xOpRec      `json:"ops"`
+	CI     int       `json:"ci"`
+	Kind   string    `json:"kind"`
+	Parent int       `json:"parent,omitempty"`
+	Start  int       `json:"start"`
+	Limit  int       `json:"limit"`
+	Pre    [][]any   `json:"pre"`
+	CH0    []*uint32 `json:"ch0"`
+	SH0    []*uint32 `json:"sh0"`
+	Ops    []xOpRec  `json:"ops"`
 }
 
 type xConfClient struct {
@@ -200,7 +204,10 @@ type xWorld struct {
 	cpend  [xNTx][]xPending
 	spend  [xNOp][]xPending
 	rec    *xCase
-	ustart int // first height of the historical dispatch the next upd/supd answers (0 = whole chain)
+	ntx    int       // txs / conf requests in use (<= xNTx)
+	nop    int       // outpoints / spend requests in use (<= xNOp)
+	plan   [xNTx]int // multi-request kinds: planned inclusion height of tx i (0 = none)
+	ustart int       // first height of the historical dispatch the next upd/supd answers (0 = whole chain)
 }
 
 func (w *xWorld) cur() int { return len(w.chain) }
@@ -248,10 +255,10 @@ func (w *xWorld) findSpend(o, from, to int) (int, int) {
 	return 0, -1
 }
 
-func (w *xWorld) hints() ([xNTx]*uint32, [xNOp]*uint32) {
-	var ch [xNTx]*uint32
-	var sh [xNOp]*uint32
-	for i := 0; i < xNTx; i++ {
+func (w *xWorld) hints() ([]*uint32, []*uint32) {
+	ch := make([]*uint32, w.ntx)
+	sh := make([]*uint32, w.nop)
+	for i := 0; i < w.ntx; i++ {
 		if h, err := w.hc.QueryConfirmHint(w.creq[i]); err == nil {
 			v := h
 			ch[i] = &v
@@ -259,7 +266,7 @@ func (w *xWorld) hints() ([xNTx]*uint32, [xNOp]*uint32) {
 			xFatal("QueryConfirmHint: %v", err)
 		}
 	}
-	for i := 0; i < xNOp; i++ {
+	for i := 0; i < w.nop; i++ {
 		if h, err := w.hc.QuerySpendHint(w.sreq[i]); err == nil {
 			v := h
 			sh[i] = &v
@@ -599,7 +606,7 @@ func (w *xWorld) candidates() []int {
 		}
 	}
 	var c []int
-	for i := 0; i < xNTx; i++ {
+	for i := 0; i < w.ntx; i++ {
 		if !onchain[i] && !spent[xSpends[i]] {
 			c = append(c, i)
 		}
@@ -623,7 +630,7 @@ func xNewWorld(t *testing.T, hc *channeldb.HeightHintCache, ci, start, limit int
 	kind string) *xWorld {
 
 	w := &xWorld{t: t, hc: hc, limit: limit, blocks: map[int]*btcutil.Block{},
-		bidOf: map[chainhash.Hash]int{}}
+		bidOf: map[chainhash.Hash]int{}, ntx: 3, nop: 2}
 	for o := 0; o < xNOp; o++ {
 		var h chainhash.Hash
 		h[0] = 0xaa
@@ -719,18 +726,18 @@ func (w *xWorld) randomNumConfs(r *xrng) int {
 func (w *xWorld) clientOp(r *xrng) {
 	switch k := r.intn(100); {
 	case k < 30:
-		tx := r.intn(xNTx)
+		tx := r.intn(w.ntx)
 		h, _ := w.findTx(tx, 1, w.cur())
 		w.opReg(tx, w.randomNumConfs(r), w.randomHint(r, h))
 	case k < 48:
-		op := r.intn(xNOp)
+		op := r.intn(w.nop)
 		h, _ := w.findSpend(op, 1, w.cur())
 		w.opSReg(op, w.randomHint(r, h))
 	case k < 68:
 		// historical conf rescan completion
-		tx := r.intn(xNTx)
-		for j := 0; j < xNTx && len(w.cpend[tx]) == 0; j++ {
-			tx = (tx + 1) % xNTx
+		tx := r.intn(w.ntx)
+		for j := 0; j < w.ntx && len(w.cpend[tx]) == 0; j++ {
+			tx = (tx + 1) % w.ntx
 		}
 		if len(w.cpend[tx]) == 0 {
 			if r.pct(30) {
@@ -783,9 +790,9 @@ func (w *xWorld) clientOp(r *xrng) {
 			}
 		}
 	case k < 82:
-		op := r.intn(xNOp)
+		op := r.intn(w.nop)
 		if len(w.spend[op]) == 0 {
-			op = (op + 1) % xNOp
+			op = (op + 1) % w.nop
 		}
 		if len(w.spend[op]) == 0 {
 			if r.pct(30) {
@@ -830,7 +837,7 @@ func (w *xWorld) clientOp(r *xrng) {
 			if h, x := w.findSpend(op, 1, w.cur()); h > 0 && !r.pct(10) {
 				w.opSUpd(op, []int{h, x}, "index")
 			} else {
-				w.opSUpd(op, []int{w.cur() + 1 + r.intn(2), r.intn(xNTx)}, "ahead")
+				w.opSUpd(op, []int{w.cur() + 1 + r.intn(2), r.intn(w.ntx)}, "ahead")
 			}
 		}
 	case k < 92:
@@ -904,7 +911,7 @@ func (w *xWorld) racePrelude(r *xrng) {
 // flushPending: at the end of a history most outstanding historical rescans
 // complete, late: with the registration-time snapshot or truthfully.
 func (w *xWorld) flushPending(r *xrng) {
-	for tx := 0; tx < xNTx; tx++ {
+	for tx := 0; tx < w.ntx; tx++ {
 		for len(w.cpend[tx]) > 0 {
 			p := w.cpend[tx][0]
 			w.cpend[tx] = w.cpend[tx][1:]
@@ -921,7 +928,7 @@ func (w *xWorld) flushPending(r *xrng) {
 			}
 		}
 	}
-	for op := 0; op < xNOp; op++ {
+	for op := 0; op < w.nop; op++ {
 		for len(w.spend[op]) > 0 {
 			p := w.spend[op][0]
 			w.spend[op] = w.spend[op][1:]
@@ -951,11 +958,12 @@ func xRestartCase(t *testing.T, hc *channeldb.HeightHintCache, w *xWorld) *xCase
 	w2 := xNewWorld(t, hc, w.rec.CI, len(w.chain), w.limit, "restart")
 	w2.rec.Parent = w.rec.CI
 	w2.rec.CI = w.rec.CI + 2000000
+	w2.ntx, w2.nop = w.ntx, w.nop
 	w2.chain = append([]xBlock{}, w.chain...)
 	w2.blocks, w2.bidOf, w2.nbid = w.blocks, w.bidOf, w.nbid
 	w2.boot()
 	ch, sh := w2.hints()
-	for tx := 0; tx < xNTx; tx++ {
+	for tx := 0; tx < w2.ntx; tx++ {
 		hint, n := 1, 1
 		if ch[tx] != nil && *ch[tx] > 0 {
 			hint = int(*ch[tx])
@@ -975,7 +983,7 @@ func xRestartCase(t *testing.T, hc *channeldb.HeightHintCache, w *xWorld) *xCase
 			}
 		}
 	}
-	for op := 0; op < xNOp; op++ {
+	for op := 0; op < w2.nop; op++ {
 		hint := 1
 		if sh[op] != nil && *sh[op] > 0 {
 			hint = int(*sh[op])
@@ -1005,13 +1013,13 @@ func xRandomCase(t *testing.T, hc *channeldb.HeightHintCache, r *xrng, ci int) *
 	}
 	// sometimes a hint left over from an earlier run
 	if r.pct(20) {
-		tx := r.intn(xNTx)
+		tx := r.intn(w.ntx)
 		if err := hc.CommitConfirmHint(uint32(1+r.intn(start+1)), w.creq[tx]); err != nil {
 			t.Fatal(err)
 		}
 	}
 	if r.pct(15) {
-		op := r.intn(xNOp)
+		op := r.intn(w.nop)
 		if err := hc.CommitSpendHint(uint32(1+r.intn(start+1)), w.sreq[op]); err != nil {
 			t.Fatal(err)
 		}
@@ -1057,6 +1065,373 @@ func xRandomCase(t *testing.T, hc *channeldb.HeightHintCache, r *xrng, ci int) *
 				w.opDisconnect(w.cur() + 1 - 2*r.intn(2))
 			}
 		}
+	}
+	return w
+}
+
+// ---- multi-request histories with forced index collisions ----
+//
+// TxNotifier keeps ONE confsByInitialHeight / ntfnsByConfirmHeight /
+// spendsByHeight index for all requests: a bucket is shared by every request
+// whose inclusion height, due height (inclusion height + numConfs - 1) or spend
+// height coincides.  The histories below watch up to 4 txs / 3 outpoints with
+// several clients each, registered at different times (before inclusion, after
+// inclusion through the historical rescan, between ConnectTip and NotifyHeight),
+// included in different (or the same) blocks, with numConfs CHOSEN so that the
+// due heights of different requests coincide, and then connect / disconnect
+// only some of the inclusion blocks / re-include.  Every environment obligation
+// is met (valid hints, truthful rescan answers, reorgs within the limit), so
+// each request's stream is checked at full strength.
+
+// validHint: a client height hint that is never above the actual
+// confirmation / spend height (at = 0: not on the chain yet).
+func (w *xWorld) validHint(r *xrng, at int) int {
+	if at > 0 {
+		if r.pct(40) {
+			return at
+		}
+		return 1 + r.intn(at)
+	}
+	switch r.intn(3) {
+	case 0:
+		return w.cur() + 1
+	case 1:
+		if w.cur() > 0 {
+			return w.cur()
+		}
+		return 1
+	default:
+		return 1 + r.intn(w.cur()+1)
+	}
+}
+
+// answer every outstanding historical conf rescan of tx truthfully
+func (w *xWorld) answerConf(tx int) {
+	for len(w.cpend[tx]) > 0 {
+		p := w.cpend[tx][0]
+		w.cpend[tx] = w.cpend[tx][1:]
+		w.ustart = p.start
+		if h, b := w.findTx(tx, p.start, w.cur()); h > 0 {
+			w.opUpd(tx, []int{h, b}, "now")
+		} else {
+			w.opUpd(tx, nil, "now")
+		}
+	}
+}
+
+func (w *xWorld) answerSpend(op int) {
+	for len(w.spend[op]) > 0 {
+		p := w.spend[op][0]
+		w.spend[op] = w.spend[op][1:]
+		w.ustart = p.start
+		if h, x := w.findSpend(op, p.start, w.cur()); h > 0 {
+			w.opSUpd(op, []int{h, x}, "now")
+		} else {
+			w.opSUpd(op, nil, "now")
+		}
+	}
+}
+
+// numConfs that makes the client of a tx included at height `at` due at `due`
+// (the shared bucket), when that is a legal value; otherwise a small random one
+func (w *xWorld) collidingNumConfs(r *xrng, at, due int) int {
+	mx := 5
+	if w.limit < mx {
+		mx = w.limit
+	}
+	n := due - at + 1
+	if at <= 0 || n < 1 || n > mx || r.pct(20) {
+		n = 1 + r.intn(mx)
+	}
+	return n
+}
+
+// the txs of the block at `height` according to the plan
+func (w *xWorld) plannedBlock(height int) []int {
+	txs := []int{}
+	var spent [xNOp]bool
+	for _, i := range w.candidates() {
+		if w.plan[i] == height && !spent[xSpends[i]] {
+			txs = append(txs, i)
+			spent[xSpends[i]] = true
+		}
+	}
+	return txs
+}
+
+func (w *xWorld) multiClientOp(r *xrng, due int) {
+	switch k := r.intn(100); {
+	case k < 45:
+		tx := r.intn(w.ntx)
+		h, _ := w.findTx(tx, 1, w.cur())
+		at := h
+		if at == 0 && w.plan[tx] > w.cur() {
+			at = w.plan[tx]
+		}
+		w.opReg(tx, w.collidingNumConfs(r, at, due), w.validHint(r, h))
+		if !r.pct(20) {
+			w.answerConf(tx)
+		}
+	case k < 62:
+		op := r.intn(w.nop)
+		h, _ := w.findSpend(op, 1, w.cur())
+		w.opSReg(op, w.validHint(r, h))
+		if !r.pct(20) {
+			w.answerSpend(op)
+		}
+	case k < 74:
+		w.answerConf(r.intn(w.ntx))
+	case k < 82:
+		w.answerSpend(r.intn(w.nop))
+	case k < 94:
+		var live []*xConfClient
+		for _, c := range w.cc {
+			if !c.dead {
+				live = append(live, c)
+			}
+		}
+		if len(live) > 0 {
+			w.opCancel(live[r.intn(len(live))])
+		}
+	default:
+		var live []*xSpendClient
+		for _, c := range w.sc {
+			if !c.dead {
+				live = append(live, c)
+			}
+		}
+		if len(live) > 0 {
+			w.opSCancel(live[r.intn(len(live))])
+		}
+	}
+}
+
+func xMultiCase(t *testing.T, hc *channeldb.HeightHintCache, r *xrng, ci int) *xWorld {
+	limits := []int{144, 144, 144, 8, 6, 5}
+	limit := limits[r.intn(len(limits))]
+	start := 2 + r.intn(3)
+	w := xNewWorld(t, hc, ci, start, limit, "multi")
+	w.ntx, w.nop = 4, 3
+	for h := 1; h <= start; h++ {
+		txs := []int{}
+		if h >= 2 && r.pct(12) {
+			txs = w.pickBlockTxs(r, 35)
+		}
+		w.chain = append(w.chain, w.mkBlock(txs))
+	}
+	w.boot()
+	replan := func() {
+		for i := 0; i < w.ntx; i++ {
+			if h, _ := w.findTx(i, 1, w.cur()); h > 0 {
+				w.plan[i] = h
+			} else if w.plan[i] <= w.cur() {
+				if r.pct(20) {
+					w.plan[i] = 0
+				} else {
+					w.plan[i] = w.cur() + 1 + r.intn(3)
+				}
+			}
+		}
+	}
+	regConf := func(tx, due int) {
+		h, _ := w.findTx(tx, 1, w.cur())
+		at := h
+		if at == 0 && w.plan[tx] > w.cur() {
+			at = w.plan[tx]
+		}
+		w.opReg(tx, w.collidingNumConfs(r, at, due), w.validHint(r, h))
+		if !r.pct(15) {
+			w.answerConf(tx)
+		}
+	}
+	grow := func(to, due int) {
+		for w.cur() < to {
+			w.opConnect(w.cur()+1, w.plannedBlock(w.cur()+1))
+			for r.pct(30) {
+				w.multiClientOp(r, due)
+			}
+			w.opNotify()
+			for r.pct(35) {
+				w.multiClientOp(r, due)
+			}
+		}
+	}
+	replan()
+	due := start + 2 + r.intn(3)
+	// most requests get their first clients before anything is included
+	for tx := 0; tx < w.ntx; tx++ {
+		for k := r.intn(3); k > 0; k-- {
+			regConf(tx, due)
+		}
+	}
+	for op := 0; op < w.nop; op++ {
+		if r.pct(60) {
+			h, _ := w.findSpend(op, 1, w.cur())
+			w.opSReg(op, w.validHint(r, h))
+			w.answerSpend(op)
+		}
+	}
+	for round := 0; round < 3; round++ {
+		// grow to somewhere between the first planned inclusion and the due height
+		lo := w.cur() + 1
+		to := lo + r.intn(due-lo+1)
+		if due < lo {
+			to = lo
+		}
+		grow(to, due)
+		// disconnect 1..3 blocks, strictly within the reorg safety limit
+		n := 0
+		for d := 1 + r.intn(3); d > 0 && w.cur() > 1 && w.high < w.cur()+w.limit; d-- {
+			w.opDisconnect(w.cur())
+			n++
+			if r.pct(20) {
+				w.multiClientOp(r, due)
+			}
+		}
+		if n > 0 {
+			replan()
+		}
+		if r.pct(40) {
+			due = w.cur() + 1 + r.intn(3)
+		}
+		for r.pct(40) {
+			regConf(r.intn(w.ntx), due)
+		}
+		if round > 0 && r.pct(50) {
+			break
+		}
+	}
+	// ... and past every due height
+	grow(due+1+r.intn(2), due)
+	for tx := 0; tx < w.ntx; tx++ {
+		w.answerConf(tx)
+	}
+	for op := 0; op < w.nop; op++ {
+		w.answerSpend(op)
+	}
+	return w
+}
+
+// xCollParams: one member of the enumerated collision family.  A = T0 is
+// included at height 3, B = T2 `off` blocks later (0 = same block); B's client
+// wants k confirmations, A's k+off: both are due at 3+off+k-1.  `grow` empty
+// blocks follow, `disc` blocks are disconnected (1 .. down to A's block),
+// re bit 0 / 1: B / A is re-included in the first new block (when it was
+// removed), then the chain grows past the due heights.  via: 0 = both
+// registered before inclusion (handleConfDetailsAtTip), 1 = A's / 2 = B's
+// client registers after inclusion (historical rescan -> UpdateConfDetails ->
+// dispatchConfDetails), 3 = A has a second client (1 conf) that is cancelled
+// after the reorg and B has a client that is cancelled BEFORE the reorg
+// (CancelConf on a shared bucket).  Spend requests on both outpoints and a conf
+// request on T3 (same block as B, 1 conf more) ride along.
+type xCollParams struct{ off, k, grow, disc, re, via int }
+
+func xCollFamily() []xCollParams {
+	var out []xCollParams
+	for via := 0; via < 4; via++ {
+		for off := 0; off <= 2; off++ {
+			for k := 1; k <= 3; k++ {
+				for grow := 0; grow <= 2; grow++ {
+					for disc := 1; disc <= off+grow+1 && disc <= 3; disc++ {
+						bGone := disc >= grow+1
+						aGone := disc >= off+grow+1
+						for re := 0; re < 4; re++ {
+							if (re&1 != 0 && !bGone) || (re&2 != 0 && !aGone) {
+								continue
+							}
+							out = append(out, xCollParams{off, k, grow, disc, re, via})
+						}
+					}
+				}
+			}
+		}
+	}
+	return out
+}
+
+func xCollCase(t *testing.T, hc *channeldb.HeightHintCache, ci int, p xCollParams,
+	limit int) *xWorld {
+
+	const A, B, C = 0, 2, 3
+	w := xNewWorld(t, hc, ci, 2, limit, "mcoll")
+	w.ntx, w.nop = 4, 3
+	w.chain = append(w.chain, w.mkBlock([]int{}), w.mkBlock([]int{}))
+	w.boot()
+	nA, nB := p.k+p.off, p.k
+	reg := func(tx, n int) {
+		w.opReg(tx, n, 1)
+		w.answerConf(tx)
+	}
+	w.opSReg(0, 1)
+	w.answerSpend(0)
+	w.opSReg(1, 2)
+	w.answerSpend(1)
+	if p.via != 1 {
+		reg(A, nA)
+	}
+	if p.via == 3 {
+		reg(A, 1)
+	}
+	if p.via != 2 {
+		reg(B, nB)
+	}
+	if p.via == 3 {
+		reg(B, nB+1)
+	}
+	reg(C, nB+1)
+	hA, hB := 3, 3+p.off
+	for h := 3; h <= hB; h++ {
+		txs := []int{}
+		if h == hA {
+			txs = append(txs, A)
+		}
+		if h == hB {
+			txs = append(txs, B, C)
+		}
+		w.opConnect(h, txs)
+		if h == hB && p.via == 1 {
+			reg(A, nA) // between ConnectTip and NotifyHeight
+		}
+		w.opNotify()
+	}
+	if p.via == 2 {
+		reg(B, nB)
+	}
+	for g := 0; g < p.grow; g++ {
+		w.opConnect(w.cur()+1, []int{})
+		w.opNotify()
+	}
+	if p.via == 3 {
+		for _, c := range w.cc {
+			if !c.dead && c.tx == B {
+				w.opCancel(c)
+				break
+			}
+		}
+	}
+	for d := 0; d < p.disc; d++ {
+		w.opDisconnect(w.cur())
+	}
+	if p.via == 3 {
+		for _, c := range w.cc {
+			if !c.dead && c.tx == A {
+				w.opCancel(c)
+				break
+			}
+		}
+	}
+	txs := []int{}
+	if p.re&2 != 0 {
+		txs = append(txs, A)
+	}
+	if p.re&1 != 0 {
+		txs = append(txs, B)
+	}
+	w.opConnect(w.cur()+1, txs)
+	w.opNotify()
+	for w.cur() < hB+p.k+2 {
+		w.opConnect(w.cur()+1, []int{})
+		w.opNotify()
 	}
 	return w
 }
@@ -1281,6 +1656,8 @@ func TestVerifTxNotifier(t *testing.T) {
 		code   []int
 		lim    int
 		script []xStep
+		multi  bool
+		coll   *xCollParams
 	}
 	var jobs []job
 	for k, sc := range xDirected {
@@ -1289,6 +1666,25 @@ func TestVerifTxNotifier(t *testing.T) {
 	}
 	for ci := 0; ci < ncases; ci++ {
 		jobs = append(jobs, job{ci: ci})
+	}
+	// multi-request histories: seeded + the enumerated collision family (all of
+	// it in the thorough tier; in the quick tier via = 0 completely and a
+	// seed-rotating third of the other variants)
+	nmulti := int(xEnvInt("VERIF_MULTI", int64(xCases(130, 1500))))
+	for k := 0; k < nmulti; k++ {
+		jobs = append(jobs, job{ci: 500000 + k, multi: true})
+	}
+	fam := xCollFamily()
+	rot := int(master.s % 3)
+	for k := range fam {
+		if xTier() != "thorough" && fam[k].via != 0 && k%3 != rot {
+			continue
+		}
+		lim := 144
+		if k%4 == 3 {
+			lim = 6
+		}
+		jobs = append(jobs, job{ci: 600000 + k, coll: &fam[k], lim: lim})
 	}
 	if depth > 0 {
 		const alpha = 8
@@ -1321,7 +1717,13 @@ func TestVerifTxNotifier(t *testing.T) {
 			defer wg.Done()
 			for j := range ch {
 				var c *xWorld
-				if j.script != nil {
+				if j.coll != nil {
+					c = xCollCase(t, hc, j.ci, *j.coll, j.lim)
+					out.emit(c.rec)
+					continue
+				} else if j.multi {
+					c = xMultiCase(t, hc, master.fork(uint64(j.ci)), j.ci)
+				} else if j.script != nil {
 					c = xDirectedCase(t, hc, j.ci, j.script, j.lim)
 				} else if j.code == nil {
 					c = xRandomCase(t, hc, master.fork(uint64(j.ci)), j.ci)
